@@ -463,39 +463,29 @@ par_run(long nitems, int W, item_fn f, crash_fn cf, void *arg, int tmo)
 /* ---------- trampoline wrapper ---------- */
 long long g_tcalls;
 const char *g_tcall_ctx = "";
-uint64_t
-tcall(const char *what, void *fn, uint64_t a0, uint64_t a1, uint64_t a2, uint64_t a3, uint64_t a4,
-      uint64_t a5)
+static uint64_t
+tcall_check(const char *what, struct tctx *t)
 {
-        struct tctx t;
-        memset(&t, 0, sizeof t);
-        t.fn = fn;
-        t.a[0] = a0;
-        t.a[1] = a1;
-        t.a[2] = a2;
-        t.a[3] = a3;
-        t.a[4] = a4;
-        t.a[5] = a5;
-        vtramp(&t);
+        vtramp(t);
         g_tcalls++;
         const char *bad = NULL;
-        if (t.rbx != 0x1111111111111111ULL)
+        if (t->rbx != 0x1111111111111111ULL)
                 bad = "rbx";
-        else if (t.rbp != 0x2222222222222222ULL)
+        else if (t->rbp != 0x2222222222222222ULL)
                 bad = "rbp";
-        else if (t.r12 != 0x3333333333333333ULL)
+        else if (t->r12 != 0x3333333333333333ULL)
                 bad = "r12";
-        else if (t.r13 != 0x4444444444444444ULL)
+        else if (t->r13 != 0x4444444444444444ULL)
                 bad = "r13";
-        else if (t.r14 != 0x5555555555555555ULL)
+        else if (t->r14 != 0x5555555555555555ULL)
                 bad = "r14";
-        else if (t.r15 != 0x6666666666666666ULL)
+        else if (t->r15 != 0x6666666666666666ULL)
                 bad = "r15";
-        else if (t.rsp_after != t.exp_rsp)
+        else if (t->rsp_after != t->exp_rsp)
                 bad = "rsp";
-        else if (t.rflags & 0x400)
+        else if (t->rflags & 0x400)
                 bad = "DF";
-        else if (t.mxcsr_after != t.mxcsr_before)
+        else if (t->mxcsr_after != t->mxcsr_before)
                 bad = "mxcsr";
         if (bad) {
                 char sig[200];
@@ -513,5 +503,35 @@ tcall(const char *what, void *fn, uint64_t a0, uint64_t a1, uint64_t a2, uint64_
                         g_property = save;
                 }
         }
-        return t.ret;
+        return t->ret;
+}
+uint64_t
+tcall(const char *what, void *fn, uint64_t a0, uint64_t a1, uint64_t a2, uint64_t a3, uint64_t a4,
+      uint64_t a5)
+{
+        struct tctx t;
+        memset(&t, 0, sizeof t);
+        t.fn = fn;
+        t.a[0] = a0;
+        t.a[1] = a1;
+        t.a[2] = a2;
+        t.a[3] = a3;
+        t.a[4] = a4;
+        t.a[5] = a5;
+        return tcall_check(what, &t);
+}
+uint64_t
+tcalln(const char *what, void *fn, int nargs, const uint64_t *args)
+{
+        struct tctx t;
+        memset(&t, 0, sizeof t);
+        t.fn = fn;
+        for (int i = 0; i < nargs && i < 6; i++)
+                t.a[i] = args[i];
+        if (nargs > 38)
+                DIE("tcalln: too many arguments");
+        for (int i = 6; i < nargs; i++)
+                t.sargs[i - 6] = args[i];
+        t.nstack = nargs > 6 ? (uint64_t) (nargs - 6) : 0;
+        return tcall_check(what, &t);
 }
